@@ -38,7 +38,7 @@ def triage(prop, seed, violations, minimise, reproduce_class, max_minimise=6):
         with open(path) as f:
             again = reproduce_class(json.load(f))
         status = "reproduced" if again else "NOT-reproduced-on-replay"
-        if not again and str(payload.get("class", "")).startswith("hang"):
+        if not again and (str(payload.get("class", "")).startswith("hang") or payload.get("class") == "completion-did-not-finish"):
             # the only wall-clock-dependent verdict: a timeout that does not come back on replay was machine load, not a hang
             log("ANOMALY: %s timed out once but finished on replay (%s); not reported" % (key, path))
             os.remove(path)
